@@ -106,8 +106,12 @@ package node
 
 //@ pred isNamer(n ByteCoder) bool := dyntype(n) == typeid[Name]() || dyntype(n) == typeid[Local]() || dyntype(n) == typeid[Closure]()
 //@ pred exprOK(n ByteCoder) bool := isExpr(n) && wfAST(n)
+// compiledG(n): n's byteCode method has been run (definitional marking: the call is what compiling n means; it is
+// assumed where the call is made and never anywhere else, so a caller can only know it of nodes it did compile).
+//@ ghost compiledG(n ByteCoder) bool
 //@ type ByteCoder.byteCode [C05,C12,C01]
 //@   params self, srcsel, fl, cr
+//@   assumes[def_compiled] compiledG(self)
 //@   requires[sel] 0 <= srcsel && srcsel <= 2
 //@   requires[ast] wfAST(self)
 //@   requires[cr]  crOK(cr)
@@ -135,20 +139,33 @@ package node
 //@ func (Closure).byteCode [C05,C12] implements ByteCoder.byteCode
 //@ func (Read).byteCode [C05,C12] implements ByteCoder.byteCode
 //@ func (Write).byteCode [C05,C12] implements ByteCoder.byteCode
+//@   ensures[operands_compiled;C01,C05,C12] compiledG(w.Value)   // no part of the node is skipped
 //@   assumes[unfold] exprOK(w.Value)
 //@ func (Aton).byteCode [C05,C12] implements ByteCoder.byteCode
+//@   ensures[operands_compiled;C01,C05,C12] compiledG(a.Value)   // no part of the node is skipped
 //@   assumes[unfold] exprOK(a.Value)
 //@ func (Toa).byteCode [C05,C12] implements ByteCoder.byteCode
+//@   ensures[operands_compiled;C01,C05,C12] compiledG(t.Value)   // no part of the node is skipped
 //@   assumes[unfold] exprOK(t.Value)
 //@ func (Exit).byteCode [C05,C12] implements ByteCoder.byteCode
+//@   ensures[operands_compiled;C01,C05,C12] compiledG(e.Value)   // no part of the node is skipped
 //@   assumes[unfold] exprOK(e.Value)
 //@ func (IndexAt).byteCode [C05,C12] implements ByteCoder.byteCode
+//@   ensures[operands_compiled;C01,C05,C12] compiledG(i.Ary) && compiledG(i.At)   // no part of the node is skipped
 //@   assumes[unfold] exprOK(i.Ary) && exprOK(i.At)
 //@ func (IndexFromTo).byteCode [C05,C12] implements ByteCoder.byteCode
+//@   ensures[operands_compiled;C01,C05,C12] compiledG(i.Ary) && compiledG(i.From) && compiledG(i.To)   // no part of the node is skipped
 //@   assumes[unfold] exprOK(i.Ary) && exprOK(i.From) && exprOK(i.To)
 //@ func (Yield).byteCode [C05,C12] implements ByteCoder.byteCode
+//@   ensures[operands_compiled;C01,C05,C12] compiledG(y.Target)   // no part of the node is skipped
 //@   assumes[unfold] exprOK(y.Target)
+// Readme: "yield itself evaluates to the yielded value". Between YIELD and the instruction after it the
+// consumer's loop body runs, and the accumulator is one register for all contexts (vm.Run's local tmp is
+// not part of `context`): a value that has to survive the switch cannot be taken from the accumulator.
+// This does NOT hold (the value is re-read with PUSHTMP) - an open, listed finding (C02, C12, C01).
+//@   ensures[yield_value_survives_resumption;C02,C12,C01] !fl.Data().Discard ==> bcop((*cr.CS)[len(*cr.CS)-1]) != bytecode.PUSHTMP
 //@ func (Return).byteCode [C05,C12,C09,C02] implements ByteCoder.byteCode
+//@   ensures[operands_compiled;C01,C05,C12] compiledG(r.Target)   // no part of the node is skipped
 //@   atcall bytecode.EncodeSrc(0, bytecode.AddrImm, with (callee_srcAddr int) requires[return_destroys_from_lowest_loop_context;C09,C02] callee_srcAddr == fl.Data().CtxLo   // C09/C02: a return inside for loops destroys the contexts CtxLo..CtxHi of all enclosing loops
 //@   atcall bytecode.EncodeSrc(1, bytecode.AddrImm, with (callee_srcAddr int) requires[return_destroys_to_highest_loop_context;C09,C02] callee_srcAddr == fl.Data().CtxHi
 //@   assumes[unfold] exprOK(r.Target)
@@ -243,6 +260,7 @@ package node
 //@   callers[range;C15] 0 <= node && node < 4294967296 && 0 <= paramCnt && paramCnt < 65536 && 0 <= localCnt && localCnt < 65536
 //
 //@ func (Function).byteCode [C05,C12] implements ByteCoder.byteCode
+//@   ensures[operands_compiled;C01,C05,C12] compiledG(f.Body)   // no part of the node is skipped
 //@   assumes[body_region] forall k :: k >= len(*cr.CS) ==> fbody(k)   // marking: what a function literal emits is its body (plus the jump over it and the FUNC instruction, which do not write the accumulator)
 //@   assumes[unfold] wfAST(f.Body)
 //@ func (Call).byteCode [C05,C12,C19] implements ByteCoder.byteCode
@@ -271,12 +289,17 @@ package node
 //@   atcall b.Left.byteCode with (callee_srcsel int) requires[left_is_src1;C01,C12,C11] callee_srcsel == 1
 //@   atcall b.Right.byteCode with (callee_srcsel int) requires[right_is_src0;C01,C12,C11] callee_srcsel == 0
 //@ func (UnOp).byteCode [C05,C12] implements ByteCoder.byteCode
+//@   ensures[operands_compiled;C01,C05,C12] compiledG(u.Target)   // no part of the node is skipped
 //@   assumes[unfold] exprOK(u.Target) && (u.Op == "-" || u.Op == "#" || u.Op == "!" || u.Op == "~")
 //@   assumes[fold]   wfAST(BinOp{Op: "*", Left: Int(-1), Right: u.Target})   // negation is compiled as (-1) * target: a well-formed product of two expressions
 //@ func (Block).byteCode [C05,C12,C09] implements ByteCoder.byteCode
 //@   assumes[unfold] len(b.Body) >= 1 && (forall k :: 0 <= k && k < len(b.Body) ==> wfAST(b.Body[k]))
 //@   requires[sel01] srcsel <= 1
 //@   loop 0 invariant[stmts] -1 <= rangeindex && rangeindex < len(b.Body) && emitInvT(cr, fl.Data().ForbidTemp)
+// C01/C08: every statement of a block is compiled, also one whose value is thrown away (its evaluation can still
+// raise a runtime error, which ends the statement).
+//@   loop 0 invariant[no_statement_skipped;C01,C05,C08,C12] forall k :: 0 <= k && k <= rangeindex ==> compiledG(b.Body[k])
+//@   ensures[every_statement_compiled;C01,C05,C08,C12] forall k :: 0 <= k && k < len(b.Body) ==> compiledG(b.Body[k])
 // C09: a statement that is not the last of its block leaves nothing behind: its value is either not
 // produced on the operand stack or popped at once.
 //@   loop 0 invariant[mid_results_dropped] (0 <= rangeindex && rangeindex < len(b.Body) - 1) ==> bck(instr, srcsel) != bytecode.AddrStck
@@ -304,12 +327,14 @@ package node
 // code emitted for the statement contains the conditional jump that tests (and type-checks) the condition.
 //@ fun isCondJump(i bytecode.Type) bool := bcop(i) == bytecode.JMPF || bcop(i) == bytecode.JMPT
 //@ func (If).byteCode [C05,C12,C09] implements ByteCoder.byteCode
+//@   ensures[operands_compiled;C01,C05,C12] compiledG(i.TrueCase)   // no part of the node is skipped
 //@   ensures[value_reported;C09,C12,C05] !fl.Data().Discard && !fl.Data().Returning ==> bck(result, srcsel) == bytecode.AddrStck   // an if used for its value always leaves one on the stack (the true case's, or nil when the condition is false) and says so
 //@   atcall bytecode.EncodeSrc(1, bytecode.AddrImm, noResultAddr with (callee_srcAddr int) requires[discarded_value_dropped;C09] (discard && !returning && tcInstr.Src0() == bytecode.AddrStck) ==> bcop((*cr.CS)[len(*cr.CS)-1]) == bytecode.POP
 //@   atcall condition(i.Condition with (callee_falsey bool) requires[true_case_follows_the_test;C12,C01] callee_falsey   // the code right after the jump is the true case: the jump must be the one taken when the condition is false
 //@   assumes[unfold] exprOK(i.Condition) && wfAST(i.TrueCase) && (dyntype(i.Condition) == typeid[UnOp]() ==> exprOK(i.Condition.(UnOp).Target))
 //@   ensures[cond_tested;C12,C09] exists k :: old(len(*cr.CS)) <= k && k < len(*cr.CS) && isCondJump((*cr.CS)[k])
 //@ func (IfElse).byteCode [C05,C12,C09] implements ByteCoder.byteCode
+//@   ensures[operands_compiled;C01,C05,C12] compiledG(i.TrueCase) && compiledG(i.FalseCase)   // no part of the node is skipped
 //@   atcall bytecode.EncodeSrc(srcsel, bytecode.AddrInv, 0) #2 with (callee_src uint64) requires[no_value_only_if_neither_branch_has_one;C09,C12] tCase.Src0() == bytecode.AddrInv && fCase.Src0() == bytecode.AddrInv   // C09: a branch value that was pushed is reported to the enclosing statement (which then pops or uses it)
 //@   atcall condition(i.Condition with (callee_falsey bool) requires[true_case_follows_the_test;C12,C01] callee_falsey   // the code right after the jump is the true case: the jump must be the one taken when the condition is false
 //@   assumes[unfold] exprOK(i.Condition) && wfAST(i.TrueCase) && wfAST(i.FalseCase) && (dyntype(i.Condition) == typeid[UnOp]() ==> exprOK(i.Condition.(UnOp).Target))
@@ -383,12 +408,23 @@ package node
 //@   requires[cr]  crOK(cr)
 //@   modifies *cr.CS, allelems(*cr.CS), *cr.DS, allelems(*cr.DS), mapof(*cr.Dbg)
 //@   ensures[K2_code] csKept(cr) && csNewWF(cr) && dsKept(cr) && crOK(cr)
+//@   mark bc.byteCode(
+//@   ensures[statement_code_kept_plus_push;C16] len(*cr.CS) >= marked(len(*cr.CS)) && len(*cr.CS) <= marked(len(*cr.CS)) + 1 && len(*cr.DS) == marked(len(*cr.DS))
+//@       && (forall i :: 0 <= i && i < marked(len(*cr.CS)) ==> (*cr.CS)[i] == marked((*cr.CS)[i]))
+//@       && (len(*cr.CS) == marked(len(*cr.CS)) + 1 ==> bcop((*cr.CS)[len(*cr.CS)-1]) == bytecode.PUSH)
 //@ func ByteCodeNoStck [C05,C12]
 //@   requires[resolved;C16,C04] rewritten(bc)
 //@   requires[ast] wfAST(bc)
 //@   requires[cr]  crOK(cr)
 //@   modifies *cr.CS, allelems(*cr.CS), *cr.DS, allelems(*cr.DS), mapof(*cr.Dbg)
 //@   ensures[K2_code] csKept(cr) && csNewWF(cr) && dsKept(cr) && crOK(cr)
+// C16: the script mode's entry point and the REPL's differ only in what happens to the statement's value: both keep
+// the code the statement compiles to exactly as it is, the REPL adds at most a PUSH of the result, script mode at most
+// a POP of it (marked(e): e right after the statement's byteCode call returned).
+//@   mark bc.byteCode(
+//@   ensures[statement_code_kept_plus_pop;C16] len(*cr.CS) >= marked(len(*cr.CS)) && len(*cr.CS) <= marked(len(*cr.CS)) + 1 && len(*cr.DS) == marked(len(*cr.DS))
+//@       && (forall i :: 0 <= i && i < marked(len(*cr.CS)) ==> (*cr.CS)[i] == marked((*cr.CS)[i]))
+//@       && (len(*cr.CS) == marked(len(*cr.CS)) + 1 ==> bcop((*cr.CS)[len(*cr.CS)-1]) == bytecode.POP)
 //
 // ---- name resolution (C04) -------------------------------------------------------------------------
 // A variable read resolves to the function's own slot, else to the slot of the immediately enclosing
@@ -403,13 +439,58 @@ package node
 //@   ensures[global;C04] (len(symTbl) < 1 || !mapdom(symTbl[len(symTbl)-1], string(n))) && (len(symTbl) < 2 || !mapdom(symTbl[len(symTbl)-2], string(n))) ==>
 //@       dyntype(result) == typeid[Name]() && result.(Name) == n
 //
+// Slot allocation (C04/C18: two different variables of a function never share a slot; C02: loop variables are
+// ordinary locals). A scope is well-formed when its slots are dense and distinct: every name has a slot below
+// the scope's size and no two names have the same. A new variable takes the slot numbered by the size, which
+// is then different from every slot in use. That the sub-trees' own STRewrite calls leave the scope of the
+// enclosing function as they found it, apart from growing it the same way, is the trusted interface contract.
+//@ pred scopeDense(s map[string]int) bool := forall k string :: mapdom(s, k) ==> 0 <= s[k] && s[k] < len(s)
+//@ pred scopeInj(s map[string]int) bool := forall k1 string, k2 string :: mapdom(s, k1) && mapdom(s, k2) && k1 != k2 ==> s[k1] != s[k2]
+//@ func (Assign).STRewrite [C04,C18]
+//@   checks index nil [C04]
+//@   requires[scope_ok] len(symTbl) >= 1 ==> symTbl[len(symTbl)-1] != nil && scopeDense(symTbl[len(symTbl)-1]) && scopeInj(symTbl[len(symTbl)-1])
+//@   assumes[ast] dyntype(a.VarRef) == typeid[Name]()
+//@   modifies mapof(symTbl[len(symTbl)-1])
+//@   ensures[global;C04] len(symTbl) < 1 ==> dyntype(result) == typeid[Assign]() && dyntype(result.(Assign).VarRef) == typeid[Name]() && result.(Assign).VarRef.(Name) == a.VarRef.(Name)
+//@   ensures[slot;C04,C18] len(symTbl) >= 1 ==> dyntype(result) == typeid[Assign]() && dyntype(result.(Assign).VarRef) == typeid[Local]()
+//@       && mapdom(symTbl[len(symTbl)-1], string(a.VarRef.(Name))) && result.(Assign).VarRef.(Local).Ix == symTbl[len(symTbl)-1][string(a.VarRef.(Name))]
+//@   ensures[existing_kept;C04,C18] len(symTbl) >= 1 ==> (forall k string :: old(mapdom(symTbl[len(symTbl)-1], k)) ==> mapdom(symTbl[len(symTbl)-1], k) && symTbl[len(symTbl)-1][k] == old(symTbl[len(symTbl)-1][k]))
+//@   ensures[scope_stays_ok;C04,C18] len(symTbl) >= 1 ==> scopeDense(symTbl[len(symTbl)-1]) && scopeInj(symTbl[len(symTbl)-1])
+//
+// Loop variables: each one is resolved like an assigned variable, in order (an existing local keeps its slot, a
+// new one takes the next free slot).
+//@ pred topScope(symTbl SymTbl) map[string]int := symTbl[len(symTbl)-1]
+//@ func (For).STRewrite [C02,C04,C18]
+//@   checks index nil [C04]
+//@   requires[scope_ok] len(symTbl) >= 1 ==> topScope(symTbl) != nil && scopeDense(topScope(symTbl)) && scopeInj(topScope(symTbl))
+//@   assumes[ast] forall j :: 0 <= j && j < len(f.VarRefs.Elems) ==> dyntype(f.VarRefs.Elems[j]) == typeid[Name]()
+//@   modifies mapof(symTbl[len(symTbl)-1])
+//@   ensures[slots;C02,C04,C18] len(symTbl) >= 1 ==> dyntype(result) == typeid[For]() && len(result.(For).VarRefs.Elems) == len(f.VarRefs.Elems)
+//@       && (forall j :: 0 <= j && j < len(f.VarRefs.Elems) ==> dyntype(result.(For).VarRefs.Elems[j]) == typeid[Local]()
+//@            && mapdom(topScope(symTbl), string(f.VarRefs.Elems[j].(Name))) && result.(For).VarRefs.Elems[j].(Local).Ix == topScope(symTbl)[string(f.VarRefs.Elems[j].(Name))])
+//@   ensures[existing_kept;C02,C04,C18] len(symTbl) >= 1 ==> (forall k string :: old(mapdom(topScope(symTbl), k)) ==> mapdom(topScope(symTbl), k) && topScope(symTbl)[k] == old(topScope(symTbl)[k]))
+//@   ensures[scope_stays_ok;C02,C04,C18] len(symTbl) >= 1 ==> scopeDense(topScope(symTbl)) && scopeInj(topScope(symTbl))
+//@   loop 0 invariant[vars] -1 <= rangeindex && rangeindex < len(f.VarRefs.Elems) && len(varRefs) == rangeindex + 1 && fresh(varRefs)
+//@       && scopeDense(topScope(symTbl)) && scopeInj(topScope(symTbl))
+//@       && (forall k string :: old(mapdom(topScope(symTbl), k)) ==> mapdom(topScope(symTbl), k) && topScope(symTbl)[k] == old(topScope(symTbl)[k]))
+//@       && (forall j :: 0 <= j && j <= rangeindex ==> dyntype(varRefs[j]) == typeid[Local]()
+//@            && mapdom(topScope(symTbl), string(f.VarRefs.Elems[j].(Name))) && varRefs[j].(Local).Ix == topScope(symTbl)[string(f.VarRefs.Elems[j].(Name))])
+//
 // A call pushes a frame of LocalCnt slots and expects its ParamCnt arguments inside it (memory.PushFrame
 // requires argsCnt <= localCnt): the slot count a function literal is given covers its parameters.
+//@ pred distinctParams(f Function, n int) bool := forall i, j :: 0 <= i && i < j && j < n ==> f.Parameters.Elems[i].(Name) != f.Parameters.Elems[j].(Name)
 //@ func (Function).STRewrite [C04,C18]
 //@   checks
 //@   modifies *
-//@   ensures[frame_covers_params;C04,C18] dyntype(result) == typeid[Function]() && result.(Function).LocalCnt >= len(f.Parameters.Elems)
-//@   loop 0 invariant true
+//@   ensures[frame_covers_params;C04,C18,C05,C03] dyntype(result) == typeid[Function]() && result.(Function).LocalCnt >= len(f.Parameters.Elems)
+//@   loop 0 invariant[params] -1 <= rangeindex && rangeindex < len(f.Parameters.Elems) && scope != nil && fresh(scope) && len(scope) <= rangeindex + 1 && scopeInj(scope)
+//@       && (forall k string :: mapdom(scope, k) ==> 0 <= scope[k] && scope[k] <= rangeindex && string(f.Parameters.Elems[scope[k]].(Name)) == k)
+//@       && (distinctParams(f, rangeindex + 1) ==> len(scope) == rangeindex + 1)
+// The scope handed to the body is the parameters' scope; the body's new variables take slots from its size on,
+// so it has to be dense and duplicate-free. This does NOT hold when a parameter name is repeated (the scope
+// {a: 1} of `(a, a) -> ...` has size 1: the first new local shares slot 1 with the parameter) - an open, listed finding.
+//@   atcall f.Body.STRewrite(symTbl) with (callee_symTbl SymTbl) requires[body_scope_well_formed_for_distinct_parameters;C04,C18] distinctParams(f, len(f.Parameters.Elems)) ==> scopeDense(callee_symTbl[len(callee_symTbl)-1]) && scopeInj(callee_symTbl[len(callee_symTbl)-1])
+//@   atcall f.Body.STRewrite(symTbl) with (callee_symTbl SymTbl) requires[body_scope_well_formed;C04,C18] scopeDense(callee_symTbl[len(callee_symTbl)-1]) && scopeInj(callee_symTbl[len(callee_symTbl)-1])
 //
 // ---- every run mode resolves names before it compiles (C16, C04) ------------------------------------
 // rewritten(n): n is the result of STRewrite (parameters, locals and captured variables are slots, not
@@ -419,7 +500,15 @@ package node
 //@ type STRewriter.STRewrite [C16,C04] trusted
 //@   params self, symTbl
 //@   allocates
+//@   modifies mapof(symTbl[len(symTbl)-1])
 //@   ensures[resolved] rewritten(result)
+// ... and the only scope a rewrite touches is the innermost one, which it can only extend: names keep their
+// slots, and a dense, duplicate-free scope stays one (proved for Assign and For, which do the extending;
+// assumed of the other node types, which only pass the table on).
+//@   ensures[grows_only] len(symTbl) >= 1 ==> (forall k string :: old(mapdom(symTbl[len(symTbl)-1], k)) ==> mapdom(symTbl[len(symTbl)-1], k) && symTbl[len(symTbl)-1][k] == old(symTbl[len(symTbl)-1][k]))
+//@   ensures[scope_ok] len(symTbl) >= 1 && old(scopeDense(symTbl[len(symTbl)-1]) && scopeInj(symTbl[len(symTbl)-1])) ==> scopeDense(symTbl[len(symTbl)-1]) && scopeInj(symTbl[len(symTbl)-1])
+//@ func (List).STRewrite [C04] implements STRewriter.STRewrite trusted
+//@   ensures[list] dyntype(result) == typeid[List]()
 // Assumed of the parser (the scanner's spans are proved inside the input, C14; their propagation
 // through combinator.Error values is not): a reported error carries a span inside the input.
 //@ type Parser.Parse [C16] trusted pure
